@@ -71,7 +71,7 @@ def StepNotPanic : StepOut → Prop
   | _ => True
 
 theorem liftTok_notPanic {hist : List Tok} {stack : List StackItem} {res : List Tree}
-    {slice : Option Slice} {r : Ctx × Outcome Tok} {k : Option (Option Slice)}
+    {slice : Option Slice} {r : Ctx × Outcome Tok} {k : Option (Option Slice × Nat)}
     (h : NotPanic r.2) : StepNotPanic (liftTok hist stack res slice r k) := by
   unfold liftTok
   split
@@ -300,9 +300,9 @@ theorem ntGood_main (env : Env) (ht : Total env.g env.t 0) (autos : List Auto)
       have hnt' : ∀ (l : Option Slice), NotPanic (noToken env pp { cx with state := ctx1.state, span := ctx1.span, lay := l }).2 ∧
           (noToken env pp { cx with state := ctx1.state, span := ctx1.span, lay := l }).1.state = ctx1.state :=
         fun l => noToken_good env pp _ _ hget hne
-      have hnt'' : NotPanic (noToken env pp { cx with state := ctx1.state, span := ctx1.span }).2 ∧
-          (noToken env pp { cx with state := ctx1.state, span := ctx1.span }).1.state = ctx1.state :=
-        noToken_good env pp { cx with state := ctx1.state, span := ctx1.span } _ hget hne
+      have hnt'' : NotPanic (noToken env pp { cx with state := ctx1.state, span := ctx1.span, pos := ctx1.pos }).2 ∧
+          (noToken env pp { cx with state := ctx1.state, span := ctx1.span, pos := ctx1.pos }).1.state = ctx1.state :=
+        noToken_good env pp { cx with state := ctx1.state, span := ctx1.span, pos := ctx1.pos } _ hget hne
       split
       · split
         · split
